@@ -609,6 +609,20 @@ func (ex *Exec) binop(g *G, op token.Token, xt types.Type, xv, yv Value, yt type
 	if !okx || !oky {
 		ex.unsupported(fmt.Sprintf("binop %s on %T,%T", op, xv, yv))
 	}
+	if isOrd(x) || isOrd(y) {
+		x, y = ex.ordPair(x, y)
+		switch op {
+		case token.LSS:
+			return B.Ult(x, y)
+		case token.LEQ:
+			return B.Ule(x, y)
+		case token.GTR:
+			return B.Ult(y, x)
+		case token.GEQ:
+			return B.Ule(y, x)
+		}
+		ex.unsupported("string op " + op.String() + " on ordinal string")
+	}
 	if x.Sort.K == smt.KStr {
 		switch op {
 		case token.ADD:
@@ -779,6 +793,9 @@ func (ex *Exec) valuesEqual(a, b Value) *smt.Term {
 		}
 		if x.Sort.K == smt.KFP {
 			return B.FCmp(smt.OFEq, x, y)
+		}
+		if isOrd(x) || isOrd(y) {
+			x, y = ex.ordPair(x, y)
 		}
 		return B.Eq(x, y)
 	case Ptr:
